@@ -350,7 +350,7 @@ func deepShapes(p *prng, n int, st *stats, oracle func(string, ...any)) {
 		kind := ""
 		curTags = nil
 		f.IgnoreTypes = nil
-		switch p.intn(27) {
+		switch p.intn(28) {
 		case 0:
 			l := mkLeaf(c, p)
 			payload, kind = &l, "ptr-struct"
@@ -449,6 +449,25 @@ func deepShapes(p *prng, n int, st *stats, oracle func(string, ...any)) {
 			l := mkLeaf(c, p)
 			psp, pbp, plp, ppp := &ps, &pb, &l, &pp
 			payload, kind = &dPP{PS: &psp, PB: &pbp, PT: &plp, PP: &ppp, N: 1}, "pointers-to-pointers"
+		case 27:
+			// the payload itself is a string or bytes, held by value (nothing to set: refused) or by pointer
+			// (filtered in place of the copy), or a slice of them
+			ps, pb := c.prot(), []byte(c.prot())
+			switch p.intn(6) {
+			case 0:
+				payload = ps
+			case 1:
+				payload = pb
+			case 2:
+				payload = &ps
+			case 3:
+				payload = &pb
+			case 4:
+				payload = []string{c.prot(), c.prot()}
+			default:
+				payload = [][]byte{[]byte(c.prot()), nil, []byte(c.prot())}
+			}
+			kind = "bare-values"
 		case 25:
 			l := mkLeaf(c, p)
 			payload, kind = []interface{}{c.prot(), mkLeaf(c, p), &l, map[string]interface{}{"k": c.prot(), "l": []interface{}{c.prot()}}, nil}, "payload-slice-of-interfaces"
